@@ -49,7 +49,18 @@ func exprObs(expr string, d interface{}, opts ...bexpr.Option) (o string) {
 	if err != nil {
 		return "NOCREATE"
 	}
-	return evalObs(ev, d)
+	o = evalObs(ev, d)
+	// generic guard against state carried between calls or between evaluators of one text (caches, memos, pools):
+	// the same evaluator asked again, and a second evaluator for the same text, must answer the same
+	if o2 := evalObs(ev, d); o2 != o {
+		return "UNSTABLE(second call on the same evaluator: " + o + " then " + o2 + ")"
+	}
+	if ev2, err2 := bexpr.CreateEvaluator(expr, opts...); err2 != nil {
+		return "UNSTABLE(the second CreateEvaluator for the same text failed)"
+	} else if o3 := evalObs(ev2, d); o3 != o {
+		return "UNSTABLE(second evaluator for the same text: " + o + " then " + o3 + ")"
+	}
+	return o
 }
 
 func parseTree(expr string) (grammar.Expression, bool) {
